@@ -7,7 +7,9 @@ package trzsz
 import (
 	"bytes"
 	"fmt"
+	"os"
 	"path/filepath"
+	"regexp"
 	"strings"
 	"syscall"
 	"testing"
@@ -19,6 +21,7 @@ type vfC10Case struct {
 	Ev        vfEvent    `json:"event"`
 	Delete    bool       `json:"delete"`
 	Initiator string     `json:"initiator"` // api | ui | sigint | sigterm
+	Plan      []vfYieldStep `json:"plan,omitempty"` // schedule perturbation (yield-instrumented build only)
 }
 
 type vfC10Res struct {
@@ -57,6 +60,10 @@ func vfC10Run(cs vfC10Case, res *vfC10Res) string {
 	}
 	defer e.cleanup()
 	vfCurCase("TestVF_C10", cs)
+	if len(cs.Plan) > 0 {
+		vfInstallPlan(cs.Plan)
+		defer vfClearPlan()
+	}
 	sess := vfNewSession(sc.Sess)
 	defer sess.close()
 	fire := func() {
@@ -244,8 +251,11 @@ func TestVF_C10(t *testing.T) {
 							if (int(h/uint64(shards)%1000003)+seed)%stride != 0 {
 								continue
 							}
-							if dir == "s2c" && k == 0 && initiator != "api" {
-								continue // the trigger line: the server may not have installed its handlers yet
+							if k == 0 && (initiator == "sigint" || initiator == "sigterm") {
+								// the trigger line / the ACT line: the server installs its signal handlers just after printing the trigger; a
+								// signal that beats them ends the process by default action before the transfer exists (the client is then on
+								// its built-in 20 s). Signals are sent from the moment the server has answered the action.
+								continue
 							}
 							cs := vfC10Case{Scen: sc, Ev: vfEvent{Dir: dir, K: k, Before: before}, Delete: del, Initiator: initiator}
 							var res vfC10Res
@@ -267,6 +277,108 @@ func TestVF_C10(t *testing.T) {
 							vfC10Eval(c, cs, &res)
 							if m != "" {
 								c.violation("enumerated", cs, m)
+								t.Errorf("%s", m)
+								return
+							}
+						}
+					}
+				}
+			}
+		}
+	}
+}
+
+
+// vfSitesInFunc lists the yield sites inside one function of an instrumented source file of the scratch copy.
+func vfSitesInFunc(file, funcHeader string) []string {
+	b, err := os.ReadFile(file)
+	if err != nil {
+		return nil
+	}
+	i := bytes.Index(b, []byte(funcHeader))
+	if i < 0 {
+		return nil
+	}
+	end := bytes.Index(b[i:], []byte("\n}\n"))
+	if end < 0 {
+		return nil
+	}
+	var out []string
+	for _, m := range regexp.MustCompile(`vfYield\("([^"]+)"\)`).FindAllSubmatch(b[i:i+end], -1) {
+		out = append(out, string(m[1]))
+	}
+	return out
+}
+
+// TestVF_C10Perturbed: the stop is published while other stages poll the stop flags. A delay is placed in front of every
+// statement of stopTransferringFiles / checkStop / clientError in turn (yield-instrumented build), for stops through the
+// exported API at a few points in the middle of each scenario.
+func TestVF_C10Perturbed(t *testing.T) {
+	c := vfNewCollector("C10", "TestVF_C10Perturbed")
+	defer vfFlushAll()
+	if vfReplayOnly() {
+		return
+	}
+	var sites []string
+	for _, fn := range []string{"func (t *trzszTransfer) stopTransferringFiles(", "func (t *trzszTransfer) checkStop(", "func (t *trzszTransfer) clientError(", "func (t *trzszTransfer) checkStopAndPause("} {
+		f := "transfer.go"
+		if strings.Contains(fn, "checkStopAndPause") {
+			f = "pipeline.go"
+		}
+		sites = append(sites, vfSitesInFunc(f, fn)...)
+	}
+	coreSites := map[string]bool{}
+	for _, s := range vfSitesInFunc("transfer.go", "func (t *trzszTransfer) stopTransferringFiles(") {
+		coreSites[s] = true
+	}
+	if len(sites) == 0 {
+		c.note("sources are not yield-instrumented: the perturbed variant did not run")
+		c.eval(map[string]any{"perturbed": "not instrumented"}, false, "not_instrumented")
+		return
+	}
+	shard, shards := vfShard()
+	stride := vfEnvInt("VERIF_C10P_STRIDE", 1)
+	seed := vfEnvInt("VERIF_SEED", 1)
+	for _, sc := range vfScenarios() {
+		if sc.Cfg.Protocol < 2 {
+			continue
+		}
+		nc, ns, msg := vfDryRun(sc)
+		if msg != "" {
+			c.violation("dryrun", sc, msg)
+			t.Fatalf("%s", msg)
+		}
+		for _, site := range sites {
+			for _, del := range []bool{true, false} {
+				for _, frac := range []int{30, 50, 70} {
+					for _, dir := range []string{"c2s", "s2c"} {
+						n := nc
+						if dir == "s2c" {
+							n = ns
+						}
+						k := n * frac / 100
+						for _, delay := range []int{2000, 15000} {
+							h := vfPointHash(sc.Name, site, del, frac, dir, delay)
+							// the core of the sweep is never thinned: delays inside stopTransferringFiles itself, stop-and-delete, long delay
+							core := coreSites[site] && del && delay >= 15000 && frac == 50
+							if int(h%uint64(shards)) != shard || (!core && (int(h/uint64(shards)%1000003)+seed)%stride != 0) {
+								continue
+							}
+							cs := vfC10Case{Scen: sc, Ev: vfEvent{Dir: dir, K: k, Before: false}, Delete: del, Initiator: "api",
+								Plan: []vfYieldStep{{Site: site, Hit: 0, Delay: delay}}}
+							var res vfC10Res
+							m := vfGuard(func() string { return vfC10Run(cs, &res) })
+							if m != "" && (strings.Contains(m, "did not end") || strings.Contains(m, "ended only")) {
+								var r2 vfC10Res
+								if m2 := vfGuard(func() string { return vfC10Run(cs, &r2) }); m2 == "" {
+									c.inconclusive("timing_not_reproduced")
+									m = ""
+								}
+							}
+							vfC10Eval(c, cs, &res)
+							c.label("perturbed")
+							if m != "" {
+								c.violation("perturbed", cs, m)
 								t.Errorf("%s", m)
 								return
 							}
